@@ -11,7 +11,7 @@ from ..ref import coulomb
 ID = "C03"
 ENGINE = "E1 product-space explorer"
 RULE = ("complete product of (l_a,l_b) in 0..5 (both L_a>=L_b and L_a<L_b, i.e. the internal swap) x type pair x "
-        "geometry class x shape pattern; each configuration observed with charge sets of 1, 2 and 5 charges that "
+        "geometry class x shape pattern; each configuration observed with charge sets of 1, 2, 3, 4 and 5 charges that "
         "together cover the 7 position classes {on A, on B, mid-bond, on an axis through A, generic near, far 100 "
         "bohr, 1e-7 off a centre} with both signs and magnitudes 0.1..100; for a sub-family every subset of 1..5 of "
         "the 7 classes (119 sets) is enumerated; per-charge slices compared separately with the McMurchie-Davidson "
@@ -65,6 +65,8 @@ def configs(tier, seed):
     for c in ps.configs(tier, 5, singles=False, bases=False, shapes=shapes(tier), geoms=geoms):
         out.append(dict(c, test="cover"))
     if tier == "quick":
+        for c in ps.close_configs(5):
+            out.append(dict(c, test="cover"))
         # representatives of the long-range diffuse/tight class (recorded finding F1, known_findings.json)
         for la, lb, g, sp in ((5, 5, "far20z", [1, 1, 2, 1, 1, 0]), (4, 4, "far12x", [1, 1, 0, 1, 1, 2]),
                               (5, 4, "far12x", [1, 1, 1, 1, 1, 1])):
@@ -149,6 +151,8 @@ def evaluate(cfg):
         charge_call(o, g, shells, ["onA", "mid", "near", "far", "offA"], "5 charges", ref_all, diag_all, cls_index, pos)
         charge_call(o, g, shells, ["axisA", "onB"], "2 charges", ref_all, diag_all, cls_index, pos)
         charge_call(o, g, shells, ["far"], "1 charge", ref_all, diag_all, cls_index, pos)
+        charge_call(o, g, shells, ["near", "offA", "mid"], "3 charges", ref_all, diag_all, cls_index, pos)
+        charge_call(o, g, shells, ["offA", "axisA", "far", "near"], "4 charges", ref_all, diag_all, cls_index, pos)
         charge_call(o, g, shells, ["T%g" % T for T in TLADDER], "Boys ladder", ref_all, diag_all, cls_index, pos)
     if cfg["test"] == "cover":
         from gbasis.integrals.point_charge import point_charge_integral
